@@ -335,7 +335,9 @@ def check_search(doc, feats, order, style, ascii_, res):
 
 def composite_docs():
     for after in (None, {"k": "v"}, {"k": "a]b", "n": 3}, {"k": "é", "b": True}, {"a": '"after_key"', "z": 1.5},
-                  {"host.name": "h1", "source.ip": "10.0.0.1", "destination.ip": "10.0.0.2"}, {"a.b.c": 1, "c": 2, "b.c": None}):
+                  {"host.name": "h1", "source.ip": "10.0.0.1", "destination.ip": "10.0.0.2"}, {"a.b.c": 1, "c": 2, "b.c": None},
+                  # a 64-bit value (date_nanos, hash) that a double cannot hold, a negative and a fractional number
+                  {"ts": 9007199254740993, "neg": -3, "frac": 0.1}):
         for path in (["c"], ["outer", "c"]):
             agg = {"buckets": [{"key": {"k": "x"}, "doc_count": 3}]}
             if after is not None:
@@ -356,7 +358,15 @@ def check_composite(doc, path, after, order, style, ascii_, res):
     v = None
     try:
         parsed = runner.CompositeAggExtractor()(io.BytesIO(raw), False, list(path), None)
-        if parsed.get("after_key") != after:
+        got_after = parsed.get("after_key")
+        if isinstance(got_after, dict):
+            # the streaming parser hands fractional numbers over as decimal.Decimal; that is the same number (and the client serialises it
+            # as such) whenever the decimal is exactly what the double prints as -- a lossy conversion stays visible
+            import decimal
+
+            got_after = {k: (float(x) if isinstance(x, decimal.Decimal) and decimal.Decimal(repr(float(x))) == x else x) for k, x in got_after.items()}
+            parsed = dict(parsed, after_key=got_after)
+        if parsed.get("after_key") != after or (isinstance(after, dict) and any(type(parsed["after_key"][k]) is not type(after[k]) for k in after)):
             v = ("composite:after-key", f"extractor returned {parsed.get('after_key')!r}, response has {after!r}")
         elif parsed.get("took") != 3 or parsed.get("timed_out") is not False or parsed.get("hits.total.value") != 5:
             v = ("composite:properties", f"{parsed}")
